@@ -77,6 +77,9 @@ def monotone_tjunction_panic(m):
     e = m.get("case", {})
     if e.get("ev") != "mono" or e.get("st") != "panic" or m.get("sub") != "panic":
         return False
+    # exactly the known panic (the unwrap in builder.rs); any other panic message at a T-junction is a different failure
+    if "Option::unwrap()" not in str(e.get("note", "")):
+        return False
     rs = []
     for q in e["p"]["ps"]:
         rs.append(q["ext"])
